@@ -91,17 +91,20 @@ def draws(detector, fail=False, **kwargs):
 STAMPS = []
 
 
-def stamp(detector, **kwargs):
-    """Writes step-dependent values into every bucket and remembers them (C03 replays)."""
+def stamp(detector, narrow_from=None, **kwargs):
+    """Writes step-dependent values into every bucket and remembers them (C03 replays). From step `narrow_from` on the float buckets are
+    written in single precision (values that binary32 cannot hold exactly are used throughout)."""
     import numpy as np
     probe(detector, **kwargs)
     i = detector.pipeline_count
     if i == 0:
         STAMPS.clear()
     shape = detector.geometry.shape
-    detector.photon.array = np.full(shape, 10.0 + i)
-    detector.pixel.array = np.full(shape, 20.0 + i)
-    detector.signal.array = np.full(shape, 0.5 + i)
+    ft = np.float32 if (narrow_from is not None and i >= narrow_from) else np.float64
+    off = 0.1 if narrow_from is not None else 0.0
+    detector.photon.array = np.full(shape, 10.0 + i + off).astype(ft)
+    detector.pixel.array = np.full(shape, 20.0 + i + off).astype(ft)
+    detector.signal.array = np.full(shape, 0.5 + i + off).astype(ft)
     detector.image.array = np.full(shape, 30 + i, dtype=np.uint16)
     detector.charge.add_charge_array(np.full(shape, 40.0 + i))      # in place, as the charge-generation models do
     STAMPS.append({n: np.array(getattr(detector, n).array) for n in ("photon", "pixel", "signal", "image", "charge")})
